@@ -15,7 +15,7 @@ Definition demo_heap : heap T :=
   mkHeap [mkGro 1%Z "RA" "A0" 1%Z vzero None; mkGro 2%Z "RB" "B0" 2%Z vzero None;
           mkGro 1%Z "RA" "A0" 1%Z vzero None; mkGro 2%Z "RB" "B0" 2%Z vzero None]
          [mkTop "A0" "RA" 1%Z 0 [1]; mkTop "B0" "RB" 2%Z 1 [0]]
-         ["MOL"].
+         ["MOL"] [].
 Definition demo_orig : handle T := HM 0 [0; 1] [[0]; [1]].
 Definition demo_copy : handle T := HM 0 [0; 1] [[2]; [3]].
 Definition demo_fam : family T := [(0, 0, demo_orig); (1, 0, demo_copy)].
@@ -70,7 +70,7 @@ Qed.
 Definition demo_deep_heap : heap T :=
   mkHeap (hgro demo_heap)
          [mkTop "A0" "RA" 1%Z 0 [1]; mkTop "B0" "RB" 2%Z 1 [0]; mkTop "A0" "RA" 1%Z 0 [1]; mkTop "B0" "RB" 2%Z 1 [0]]
-         ["MOL"; "MOL"].
+         ["MOL"; "MOL"] [].
 Definition demo_deep : handle T := HM 1 [2; 3] [[2]; [3]].
 Definition demo_deep_fam : family T := [(0, 0, demo_orig); (1, 1, demo_deep)].
 
@@ -93,5 +93,36 @@ Lemma demo_deep_avoids :
 Proof.
   cbn [avoids]. split; [|split; [|split; [|exact I]]]; intros e0 E0; cbv in E0; inversion E0; subst; cbn; lia.
 Qed.
+
+(* an Alignment whose two ends are set (both refer to the molecule of handle 1), as handle 2 *)
+Definition demo_ali_heap : heap T :=
+  mkHeap (hgro demo_heap) (htop demo_heap) (hmt demo_heap)
+         [(Some (0, [0; 1], [[2]; [3]]), Some (0, [0; 1], [[2]; [3]]))].
+Definition demo_ali_fam : family T := [(0, 0, demo_orig); (1, 0, demo_copy); (2, 2, HL 0)].
+
+Lemma demo_ali_wf : wf demo_ali_heap demo_ali_fam.
+Proof.
+  split.
+  - intros [|[|[|i]]] g tg X E; simpl in E; inversion E; subst; clear E.
+    + repeat split; simpl; try lia; intros l Hl; simpl in Hl; lia.
+    + repeat split; simpl; try lia; intros l Hl; simpl in Hl; lia.
+    + repeat split; simpl; try lia; intros l Hl; simpl in Hl; lia.
+    + destruct i; discriminate.
+  - intros [|[|[|i]]] [|[|[|j]]] gi ti Xi gj tj Xj Ei Ej; simpl in Ei, Ej; inversion Ei; inversion Ej; subst;
+      try (destruct i; discriminate); try (destruct j; discriminate);
+      (split; [intros Hne | intros Hne; split]); try congruence;
+      intros l Ha Hb; simpl in Ha, Hb; lia.
+Qed.
+
+(* re-assigning the start with the (equal) original succeeds and stores a copy in fresh cells 4, 5;
+   assigning a handle that is not a molecule is a TypeError; assigning None clears the end *)
+Lemma demo_ali_steps :
+  snd (step (demo_ali_heap, demo_ali_fam) (2, OAliSet true (Some 0))) = Ok tt /\
+  snd (fst (step (demo_ali_heap, demo_ali_fam) (2, OAliSet true (Some 0)))) =
+    (demo_ali_fam ++ [(3, 0, HM 0 [0; 1] [[4]; [5]])])%list /\
+  snd (step (demo_ali_heap, demo_ali_fam) (2, OAliSet false (Some 2))) = Err EType /\
+  hali (fst (fst (step (demo_ali_heap, demo_ali_fam) (2, OAliSet false None)))) =
+    [(Some (0, [0; 1], [[2]; [3]]), None)].
+Proof. cbv. repeat split; reflexivity. Qed.
 
 End Demo.
